@@ -172,6 +172,14 @@ func RunC12(c *sim.Ctx, pkg *C12Pkg) {
 			if c.Chance(800) {
 				pks = append(pks, &Pkt{Dir: d.Idx, Seq: d.ISN + 1 + uint32(n), FIN: true, Off: n, Kind: "end"})
 			}
+			if len(pks) > 3 && c.Chance(250) {
+				// one data segment is lost on the way: only a flush can release what follows
+				k := 1 + c.Draw(len(pks)-2)
+				if pks[k].Kind == "data" {
+					pks = append(pks[:k], pks[k+1:]...)
+					c.Fault("segment_lost")
+				}
+			}
 			for _, pk := range pks {
 				t += 1000
 				ww := w
